@@ -68,7 +68,9 @@ def legit (w : World) (i : InstW) (op : PendingOp) : Bool × String :=
         -- did the deleting instance lead when its stop call began?  (distinguishes the histories of known finding F10)
         let ledAtStop := op.ledAtStop
         let how := if ledAtStop then "it led when its StopWithContext(DeleteKey) began and the record changed hands since"
-                   else "it did not lead when its stop call began"
+                   else match i.orphanTok with
+                     | some t => s!"it did not lead when its stop call began; it holds the note of an acquired record it never claimed (token {t}, acknowledged after its run had ended) and the record changed hands since"
+                     | none => "it did not lead when its stop call began"
         match r.val with
         | .own rid rtok _ => (r.writer == i.cfg.id && rid == i.cfg.id && rtok == i.lastOwnTok && inStop, s!"deletes a record it does not own (or outside its own graceful shutdown); {how}")
         | _ => (false, s!"deletes a record it does not own; {how}")
@@ -170,11 +172,22 @@ def deadlinesHB (w : World) (t : Nat) : World :=
           (acc, x1)
         else (acc, x)
       | none => (acc, x)
+    -- whatever the loop does or omits: a leader without a successful refresh for one time-out (a slow last success) plus
+    -- three attempts (each at most a time-out, a tick apart) plus their health checks has had three consecutive failures
+    let T := hbTimeout x.cfg
+    let noProgressBy := x.hbLastOkStart + T + 3 * max x.cfg.hb T + 400000000
+    let acc := if x.flag ∧ x.stopCalledSince.isNone ∧ ¬ x.noProgressReported ∧ noProgressBy < t then
+        checkW (acc.updInst x.cfg.id fun y => { y with noProgressReported := true }) false "C03" "still-claiming-after-deadline"
+          s!"instance {x.cfg.id} still reports leadership at {t}: no successful refresh since the one begun at {x.hbLastOkStart} (three failed attempts fit into {T + 3 * max x.cfg.hb T} ns)"
+      else acc
     match x.demoteDue with
     | some (d, why) =>
       if d < t then
         let acc := acc.updInst x.cfg.id fun y => { y with demoteDue := none }
-        checkW acc (!x.flag) "C03" "still-claiming-after-deadline" s!"instance {x.cfg.id} still reports leadership after {d} ({why})"
+        if why == "health threshold reached" then
+          checkW acc (!x.flag) "C12" "health-demotion-missing" s!"instance {x.cfg.id} still reports leadership after {d} ({why})"
+        else
+          checkW acc (!x.flag) "C03" "still-claiming-after-deadline" s!"instance {x.cfg.id} still reports leadership after {d} ({why})"
       else acc
     | none => acc) w
 
@@ -216,6 +229,7 @@ def deadlines (w : World) (t : Nat) : World :=
       | some d => if d < t ∧ x.flag then
             failW (acc.updInst x.cfg.id fun y => { y with graceDue := none }) "C11" "grace-demotion-missing"
               s!"instance {x.cfg.id} still leads after its grace period ended at {d} with no reconnect notification"
+          else if d < t then acc.updInst x.cfg.id fun y => { y with graceDue := none }   -- the timer fired on a follower: nothing to do
           else acc
       | none => acc
     match x.verifyOpen with
@@ -341,6 +355,14 @@ def step (m : MState) (e : TEv) : MState :=
             | _ => "C01:delete")
           let w := checkW w ok "C01" (if p.kind = .update ∧ ¬ isRefresh w x p then "illegitimate-takeover" else "illegitimate-mutation")
                     s!"instance {x.cfg.id} {repr p.kind} exp={p.exp} val={repr p.val} over {repr (w.live p.key)}: {why}"
+          -- C05: a write of a leader over its own record (a refresh) republishes exactly the identity and token it replaces
+          let w := match p.kind, w.live p.key with
+            | .update, some r =>
+              if x.flag && r.writer == x.cfg.id && (match r.val with | .own rid rtok _ => rid == x.cfg.id && rtok == x.flagTok | _ => false) then
+                checkW w (match p.val, r.val with | .own id tok _, .own rid rtok _ => id == rid && tok == rtok | _, _ => false)
+                  "C05" "refresh-changes-token" s!"instance {x.cfg.id} (term token {x.flagTok}) overwrites its own record {repr r.val} with {repr p.val}"
+              else w
+            | _, _ => w
           -- C10: the same judgement for the replacement of somebody else's record
           let w := if p.kind = .update ∧ ¬ isRefresh w x p then
               (checkW w ok "C10" "takeover-without-rights"
@@ -385,6 +407,13 @@ def step (m : MState) (e : TEv) : MState :=
     | none => { m with w := failW w0 "TRACE" "ret-unknown-op" s!"{op}" }
     | some p =>
       let w := { w0 with ops := w0.ops.filter (·.id ≠ op) }
+      -- an acquiring write acknowledged after the run has ended (stop call begun or context cancelled) is refused promotion:
+      -- the instance keeps a note of the orphan record (it deletes it in a later StopWithContext{DeleteKey})
+      let w := match r, p.val, w.inst? p.inst with
+        | .ok _ _, .own id tok _, some x =>
+          if (p.kind == OpKind.create || p.kind == OpKind.update) && id == p.inst && !x.flag && x.stopCalledSince.isSome && x.runToks.contains tok
+          then w.updInst p.inst fun y => { y with orphanTok := some tok } else w
+        | _, _, _ => w
       let w := match r, p.kind with
         | .ok rev _, .create => w.updInst p.inst fun y => { y with lastAckRev := rev, lastAckAt := e.t }
         | .ok rev _, .update =>
@@ -410,7 +439,7 @@ def step (m : MState) (e : TEv) : MState :=
                if e.t > ct + hbTimeout x.cfg then w   -- answered after the time-out: already counted as failed, the answer is discarded
                else
                  match r with
-                 | .ok _ _ => w.setInst { x with hbPending := none, hbFails := 0, hbLastOkStart := ct }
+                 | .ok _ _ => w.setInst { x with hbPending := none, hbFails := 0, hbLastOkStart := ct, noProgressReported := false }
                  | .err k =>
                    if k = ErrKind.wrongseq ∨ k = ErrKind.notfound then
                      let w := w.hit "C03a:refresh-refused"
@@ -492,6 +521,7 @@ def step (m : MState) (e : TEv) : MState :=
                                      healthRun := if x.flag then x.healthRun else 0,
                                      lastHealthAt := if x.flag then x.lastHealthAt else none,
                                      hbLastOkStart := if x.flag then x.hbLastOkStart else e.t,
+                                     noProgressReported := if x.flag then x.noProgressReported else false,
                                      hbFails := if x.flag then x.hbFails else 0,
                                      hbPending := if x.flag then x.hbPending else none }
         let w := if x.flag then w else w.hit "C05:term-started"
@@ -511,7 +541,9 @@ def step (m : MState) (e : TEv) : MState :=
         let w := checkW w (!(x.flag && x.stopCalledSince.isNone && x.lastHealthAt == some (e.t, false) && decide (x.healthRun < healthThreshold x.cfg)
                               && (match x.demoteDue with | some (d, _) => decide (d > e.t) | none => true)))
                    "C12" "health-demotion-before-threshold" s!"instance {i} demoted after {x.healthRun} consecutive unhealthy checks of this term, threshold {healthThreshold x.cfg}"
-        let w := w.setInst { x' with flag := false, gauge := b, graceDue := none, verifyOpen := none, demoteDue := none, lostAt := none,
+        -- (the grace timer outlives a term that ends for another reason: an instance that leads again when it fires - still
+        --  without a reconnect notification - is demoted then)
+        let w := w.setInst { x' with flag := false, gauge := b, graceDue := (if x.graceDue == some e.t then none else x.graceDue), verifyOpen := none, demoteDue := none, lostAt := none,
                                       hbPending := none, hbFails := 0, lastHealthAt := none, candidateSince := e.t }
         -- C07: in fault-free operation a leader is never demoted before it is stopped
         let w := checkW w (¬ (h.faultFree ∧ x.flag ∧ x.stopCalledSince.isNone)) "C07" "leader-demoted-fault-free"
@@ -584,7 +616,7 @@ def step (m : MState) (e : TEv) : MState :=
       let w := match a.kind, r with
         | .start, .ok =>
           ({ w with apis := w.apis.map fun (a : ApiCall) => if a.inst = i then { a with superseded := true } else a } : World).updInst i fun x =>
-            { x with runToks := [], stoppedSince := none, stopCalledSince := none, everStarted := true, lastTo := 1, startedAt := e.t, candidateSince := e.t }
+            { x with runToks := [], orphanTok := none, stoppedSince := none, stopCalledSince := none, everStarted := true, lastTo := 1, startedAt := e.t, candidateSince := e.t }
         | .stop, .ok =>
           -- a Start called while this stop was in progress begins a new run: the stop's guarantees end there
           if a.superseded then (w.setInst { x with stopsInProgress := x.stopsInProgress - 1 }).hit "C09:stop-superseded-by-start" else
@@ -636,6 +668,8 @@ def step (m : MState) (e : TEv) : MState :=
       let w := checkW w (il = il2) "C18" "status-vs-isleader" s!"instance {i}: Status().IsLeader={il} IsLeader()={il2}"
       let w := checkW w (¬ il ∨ lid = i) "C18" "leader-leaderid" s!"instance {i} leads but Status().LeaderID={lid}"
       let w := checkW w (¬ il ∨ tok = x.lastOwnTok) "C18" "leader-token" s!"instance {i} leads but Status().Token={tok}, its record token is {x.lastOwnTok}"
+      -- C05: what a leader hands out as its fencing token is the token of the term in progress
+      let w := checkW w (¬ il ∨ ¬ x.flag ∨ tok = x.flagTok) "C05" "leader-token-is-not-the-terms" s!"instance {i} leads (term token {x.flagTok}) but Status().Token={tok}"
       let busy := w.ops.any fun p => p.inst = i ∧ (p.kind = .update ∨ p.kind = .create)
       let w := checkW w (¬ il ∨ busy ∨ rev = x.lastAckRev) "C18" "leader-revision" s!"instance {i} leads but Status().Revision={rev}, latest acknowledged own write is {x.lastAckRev}"
       let w := checkW w (x.stoppedSince.isNone ∨ (st = 5 ∧ ¬ il)) "C18" "not-stopped-after-stop" s!"instance {i}: state {st} IsLeader={il} after its stop returned"
